@@ -1,4 +1,5 @@
 import Csproto.Props.C13
+import Csproto.Props.C13Live
 import Csproto.Bridge.Lazy
 import Csproto.Bridge.Facts
 /- axiom audit for C13 -/
@@ -24,3 +25,12 @@ open Csproto
 #print axioms Bridge.maxTagValue_ok
 #print axioms Csproto.C13.sint32_range
 #print axioms Csproto.C13.sint32_overflow
+-- several results of one Decoder open at the same time (Props/C13Live.lean)
+#print axioms Csproto.C13Live.spec_acc_own
+#print axioms Csproto.C13Live.spec_close_keeps_others
+#print axioms Csproto.C13Live.spec_decode_keeps
+#print axioms Csproto.C13Live.live_answers_are_own_input
+#print axioms Csproto.C13Live.live_answer_after
+#print axioms Csproto.C14N.nested_history_refines
+#print axioms Csproto.C13Live.liveEx_ok
+#print axioms Csproto.C13Live.liveEx_outputs
